@@ -14,6 +14,10 @@ Learn(body, h) == IF body \in DOMAIN hashOf THEN hashOf ELSE hashOf @@ (body :> 
 Fresh(kind, db, key) == LET id == <<kind, db>> IN id \in DOMAIN seen => seen[id] = key
 Remember(kind, db, key) == LET id == <<kind, db>> IN IF id \in DOMAIN seen THEN seen ELSE seen @@ (id :> key)
 
+\* every public entry point for the same logical key (by value, by reference, the per-kind functions) gives the same
+\* database key, and every inverse entry point gives back the same logical key
+Agree(alts, x) == \A i \in 1..Len(alts) : alts[i] = x
+
 TInit == l = 1 /\ seen = <<>> /\ hashOf = <<>> /\ prevS = <<>>
 
 TNode == LET ev == Rec[l] IN
@@ -23,6 +27,7 @@ TNode == LET ev == Rec[l] IN
   /\ ev.db = ToNode(hashOf', ev.body)
   /\ StructOk(<<>>, ev.h, ev.body, ev.db)
   /\ FromNode(ev.db) = ev.back /\ ev.back = ev.body
+  /\ Agree(ev.alt, ev.db) /\ Agree(ev.altback, ev.body) /\ Agree(ev.altpn, ev.pn)
   /\ ev.dbpn = ToPartNum(ev.pn) /\ ev.backpn = FromPartNum(ev.dbpn) /\ ev.backpn = ev.pn
   /\ Fresh("node", ev.db, ev.body)
   /\ seen' = Remember("node", ev.db, ev.body)
@@ -31,6 +36,7 @@ TField == LET ev == Rec[l] IN
   /\ ev.k = "field"
   /\ ev.db = ToField(ev.f)
   /\ FromField(ev.db) = ev.back /\ ev.back = ev.f
+  /\ Agree(ev.alt, ev.db) /\ Agree(ev.altback, ev.f)
   /\ Fresh("field", ev.db, <<ev.f>>)
   /\ seen' = Remember("field", ev.db, <<ev.f>>)
   /\ UNCHANGED <<hashOf, prevS>>
@@ -41,6 +47,7 @@ TMap == LET ev == Rec[l] IN
   /\ ev.db = ToMap(hashOf', ev.body)
   /\ StructOk(<<>>, ev.h, ev.body, ev.db)
   /\ FromMap(ev.db) = ev.back /\ ev.back = ev.body
+  /\ Agree(ev.alt, ev.db) /\ Agree(ev.altback, ev.body)
   /\ Fresh("map", ev.db, ev.body)
   /\ seen' = Remember("map", ev.db, ev.body)
   /\ UNCHANGED prevS
@@ -55,6 +62,7 @@ TSorted == LET ev == Rec[l] IN
   /\ StructOk(ev.p, ev.h, ev.body, ev.db)
   /\ FromSortedP(ev.db) = ev.backp /\ FromSortedK(ev.db) = ev.back
   /\ ev.backp = ev.p /\ ev.back = ev.body
+  /\ Agree(ev.alt, ev.db) /\ Agree(ev.altbackp, ev.p) /\ Agree(ev.altback, ev.body)
   /\ Fresh("sorted", ev.db, <<ev.p, ev.body>>)
   /\ seen' = Remember("sorted", ev.db, <<ev.p, ev.body>>)
   /\ prevS # <<>> => OrderOk(prevS[1], ev)
